@@ -73,6 +73,7 @@ type stats struct {
 	maxBulk, maxDeleted                                                                              int
 	nearValue, directEntry, mixedEnc, extremeTS, pathOrigin, readdLive                               bool
 	bigDeleteWithSurvivor                                                                            bool
+	heldDeleteLeaves                                                                                 int
 }
 
 func (s *stats) labels() []string {
@@ -82,6 +83,7 @@ func (s *stats) labels() []string {
 			l = append(l, n)
 		}
 	}
+	add(s.heldDeleteLeaves > 1, "several-delete-handles-re-read-after-the-call")
 	add(s.staleOnExisting, "update-at-or-below-stored-ts")
 	add(s.equalTSReplace, "same-ts-different-value-replaces")
 	add(s.deleteMatched, "delete-matched-leaf")
@@ -136,6 +138,10 @@ func (s *stats) nontrivial(prop string) bool {
 
 type feedEntry struct {
 	n *pb.Notification // clone taken inside the callback
+	// the handle itself when it announces a delete: such a leaf belongs to no tree, so what it holds when a
+	// consumer gets round to reading it (the Subscribe server reads it when the entry is sent) is what it held
+	// when it was handed over
+	leaf *ctree.Leaf
 }
 
 type world struct {
@@ -181,6 +187,23 @@ func (w *world) fail(prop, format string, a ...any) {
 	panic(&failure{prop, fmt.Sprintf(format, a...)})
 }
 
+// failMulti is a C03 violation if the operation just made was a notification with several entries: the
+// reference applies such a notification as its updates then its deletes one at a time (each judged against
+// the clock and the latest accepted timestamp as they were when the call began), so a stored state that
+// differs from the reference right after it is the "behaves as ... applied one at a time" clause failing.
+// (With a future threshold the comparison against a second cache fed one entry per call is not available:
+// there the latest accepted timestamp legitimately moves between the calls.)
+func (w *world) failMulti(format string, a ...any) {
+	if len(w.log) == 0 {
+		return
+	}
+	op := w.log[len(w.log)-1]
+	if op.kind != "noti" || op.n.GetAtomic() || len(op.n.GetUpdate())+len(op.n.GetDelete()) < 2 {
+		return
+	}
+	w.fail("C03", format, a...)
+}
+
 func newWorld(sc *Scenario, props map[string]bool) *world {
 	w := &world{sc: sc, clock: 1_000_000, replay: map[string]*pb.Notification{}, model: map[string]*mtarget{},
 		pool: map[string]*pb.Path{}, poolLen: map[string]int{}, check: props}
@@ -202,10 +225,14 @@ func newWorld(sc *Scenario, props map[string]bool) *world {
 	w.c.SetClient(func(l *ctree.Leaf) {
 		n, ok := l.Value().(*pb.Notification)
 		if !ok {
-			w.feed = append(w.feed, feedEntry{nil})
+			w.feed = append(w.feed, feedEntry{n: nil})
 			return
 		}
-		w.feed = append(w.feed, feedEntry{proto.Clone(n).(*pb.Notification)})
+		e := feedEntry{n: proto.Clone(n).(*pb.Notification)}
+		if len(n.Delete) > 0 {
+			e.leaf = l
+		}
+		w.feed = append(w.feed, e)
 	})
 	return w
 }
@@ -228,6 +255,12 @@ func (w *world) applyFeed(from int) {
 		if n == nil {
 			w.fail("C03", "feed delivered a leaf that does not hold a notification")
 			continue
+		}
+		if e.leaf != nil {
+			w.st.heldDeleteLeaves++
+			if now, _ := e.leaf.Value().(*pb.Notification); !proto.Equal(now, n) {
+				w.fail("C03", "the leaf handed to the callback for the delete %v holds %v when read at the next quiescent point: what was handed over changed afterwards", n, now)
+			}
 		}
 		switch {
 		case len(n.Delete) > 0:
@@ -359,6 +392,7 @@ func (w *world) compareAll(step int) {
 			ml, ok := m.leaves[k]
 			if !ok {
 				w.fail("C02", "step %d: cache holds %s/%q=%v which the model does not", step, name, gn.Unkey(k), n)
+				w.failMulti("step %d: %s/%q=%v is stored, but not when the entries of the notification are applied one at a time", step, name, gn.Unkey(k), n)
 				continue
 			}
 			if n.GetTimestamp() != ml.ts {
@@ -366,6 +400,7 @@ func (w *world) compareAll(step int) {
 			}
 			if !sameStored(n, ml.n) {
 				w.fail("C02", "step %d: %s/%q stored %v, model %v", step, name, gn.Unkey(k), n, ml.n)
+				w.failMulti("step %d: %s/%q stored %v, but %v when the entries of the notification are applied one at a time", step, name, gn.Unkey(k), n, ml.n)
 			}
 			if r != nil && r.GetTimestamp() != n.GetTimestamp() && !ml.suppressed {
 				w.fail("C03", "step %d: %s/%q feed replay has timestamp %d, cache %d, and the last write was not a suppressed one", step, name, gn.Unkey(k), r.GetTimestamp(), n.GetTimestamp())
@@ -385,6 +420,7 @@ func (w *world) compareAll(step int) {
 		for k, ml := range m.leaves {
 			if _, ok := got[k]; !ok {
 				w.fail("C02", "step %d: model holds %s/%q (ts %d) but the cache does not", step, name, gn.Unkey(k), ml.ts)
+				w.failMulti("step %d: %s/%q (ts %d) is not stored, but it is when the entries of the notification are applied one at a time", step, name, gn.Unkey(k), ml.ts)
 			}
 		}
 		// C15: exported leaf count == stored non-metadata leaves == added - deleted
